@@ -4,6 +4,7 @@ import "context"
 
 func init() {
 	verifRegister("VerifC06Wait", VerifC06Wait)
+	verifRegister("VerifC06SharedCtx", VerifC06SharedCtx)
 }
 
 func verifClosed(ch <-chan struct{}) bool {
@@ -207,4 +208,115 @@ func verifB(b bool) uint64 {
 		return 1
 	}
 	return 0
+}
+
+// VerifC06SharedCtx: two When / WhenNot subscriptions sharing one cancelation context; completing or
+// collecting one of them must not lose the other's wake-ups (state match or context end).
+func VerifC06SharedCtx() {
+	s := verifNewScn(3, false, false, false, false, true, false)
+	s.inject(false)
+	m := s.m
+	ctx, cancel := context.WithCancel(context.Background())
+	type wsub struct {
+		kind      int
+		sub       S
+		ch        <-chan struct{}
+		subActive S
+	}
+	var subs [2]*wsub
+	for i := range subs {
+		w := &wsub{kind: vParam("k"+string(rune('1'+i)), 0)}
+		if code := vParam("s1", 0); i == 0 && code > 0 {
+			for b, name := range s.names {
+				if code&(1<<b) != 0 {
+					w.sub = append(w.sub, name)
+				}
+			}
+		} else {
+			w.sub = verifSublist(s.names)
+		}
+		vAssume(len(w.sub) > 0)
+		w.subActive = m.ActiveStates(nil)
+		if w.kind == 0 {
+			w.ch = m.When(w.sub, ctx)
+		} else {
+			w.ch = m.WhenNot(w.sub, ctx)
+		}
+		subs[i] = w
+	}
+	step := func() {
+		st := s.names[vInt(0, 2)]
+		if vBool() {
+			m.Add1(st, nil)
+		} else {
+			m.Remove1(st, nil)
+		}
+	}
+	step()
+	ctxEnded := false
+	endLog := len(s.tr.log)
+	if vBool() {
+		cancel()
+		ctxEnded = true
+	}
+	step()
+	vReach("shared")
+	for i, w := range subs {
+		cond := func(active S) bool {
+			for _, x := range w.sub {
+				if verifHas(active, x) != (w.kind == 0) {
+					return false
+				}
+			}
+			return true
+		}
+		held := cond(w.subActive)
+		accSinceEnd := false
+		swap := false
+		for j, e := range s.tr.log {
+			if e.kind != "end" || !e.acc || e.mut.IsCheck {
+				continue
+			}
+			var act S
+			for k, name := range m.stateNames {
+				if e.after[k]%2 == 1 {
+					act = append(act, name)
+				}
+			}
+			if cond(act) {
+				held = true
+			}
+			up, down := false, false
+			for _, x := range w.sub {
+				k := verifIdx(m.stateNames, x)
+				if e.before[k]%2 == 0 && e.after[k]%2 == 1 {
+					up = true
+				}
+				if e.before[k]%2 == 1 && e.after[k]%2 == 0 {
+					down = true
+				}
+			}
+			if up && down {
+				swap = true
+			}
+			if ctxEnded && j >= endLog {
+				accSinceEnd = true
+			}
+		}
+		closed := verifClosed(w.ch)
+		vKnown("c06-when-closes-on-swap", w.kind == 0 && swap)
+		if i == 0 {
+			vAssert("no-lost-wakeup-1", !held || closed)
+			vAssert("no-spurious-wakeup-1", !closed || held || ctxEnded)
+			if ctxEnded && accSinceEnd {
+				vAssert("closed-after-ctx-end-1", closed)
+			}
+		} else {
+			vAssert("no-lost-wakeup-2", !held || closed)
+			vAssert("no-spurious-wakeup-2", !closed || held || ctxEnded)
+			if ctxEnded && accSinceEnd {
+				vAssert("closed-after-ctx-end-2", closed)
+			}
+		}
+	}
 }
